@@ -76,11 +76,20 @@ def showDes (r : Except DErr Msg) : String :=
   | .ok m => "ok " ++ showMsg "~" m
   | .error e => e.code
 
-def idsOf (s : String) : Option (List Str) :=
-  if s == "-" then some [] else (s.splitOn ",").mapM fromHex
+/-- global suppressions of the in-process ties: `<hexid>` = --suppress=<id>, `<hexid>@<line>` = --suppress=<id>:*:<line> -/
+def idsOf (s : String) : Option (List (Str × Option Int)) :=
+  if s == "-" then some []
+  else (s.splitOn ",").mapM fun w =>
+    match w.splitOn "@" with
+    | [h] => (fromHex h).map (·, none)
+    | [h, l] => match fromHex h, l.toInt? with
+      | some i, some n => some (i, some n)
+      | _, _ => none
+    | _ => none
 
-def cfgOf (emitdup : Bool) (ids : List Str) : Cfg :=
-  { key := fun m => m.id, key2 := fun m => m.id, supG := fun v => ids.contains v.errorId, supGX := fun v => ids.contains v.errorId,
+def cfgOf (emitdup : Bool) (ids : List (Str × Option Int)) : Cfg :=
+  let sup : SView → Bool := fun v => ids.any fun p => p.1 == v.errorId && (match p.2 with | none => true | some l => l == v.line)
+  { key := fun m => m.id, key2 := fun m => m.id, supG := sup, supGX := sup,
     critical := fun _ => false, emitDuplicates := emitdup, simp := id }
 
 /-- events of handleRead called until it returns false -/
